@@ -125,13 +125,13 @@ CLAIMED = {
    design="5/C15"),
  'C16': dict(
    text="(a) Machine-checked theorem (Coq): the derive model is parametric in ALL three hash iteration orders (unordered array, flat map, recursive map; each only required to be a permutation) — what the hasher feature can change; feature_invariance: under any two choices the results of diff followed by apply both satisfy the round-trip relation and are both equivalent to b (identical up to the order of unordered collections and the old-or-new latitude of ignored data). (b) Structural tie: every cfg(feature) site of the library and the macro (115) is classified (use / type alias / generic bound / derive list / module / assertion / macro code generation) and pinned; a new or changed site breaks the tie. (c) Configuration enumeration: the same seeded derive-level workload is compiled and run under feature sets of the library (quick: 6 representative sets incl. none and all six; thorough: all 64, exhaustive) and every observation must be identical across sets; the debug_diffs set must satisfy the oracles of C01/C03/C04/C13 and agree with the model.",
-   note=TB + "The unreachable debug_asserts arms are not proved unreachable in Coq; they are exercised by running every configuration in a debug build (debug assertions on). Shapes are restricted to containers nanoserde 0.1.37 can encode so that the same workload compiles under every set.",
-   technique="Coq proof parametric in all hash iteration orders + pinned cfg(feature) sites + enumeration of feature sets (exhaustive in thorough)",
+   note=TB + "debug_asserts_never_fire: the variants of the unordered-array and flat-map models that panic at the debug_assert_ne!(count, 0) and \"Sorting failure\" sites are proved equal to the plain models (diff: all inputs, both map modes; apply: every diff value and base; any hash order); that the real assertion sites are the ones the variants model is pinned by the site list (assertion text included) and observed by running every configuration in a debug build (debug assertions on). Shapes are restricted to containers nanoserde 0.1.37 can encode so that the same workload compiles under every set.",
+   technique="Coq proof parametric in all hash iteration orders + Coq proof that the assertion sites are unreachable + pinned cfg(feature) sites + enumeration of feature sets (exhaustive in thorough)",
    design="5/C16"),
  'C17': dict(
-   text="PARTIAL. Proved (Coq): the macro's field-type parser (derive/src/parse.rs::next_type transcribed branch by branch on proc-macro token trees) consumes every well-formed type of the grammar of supported field types (paths, nested generics, references with/without lifetimes, tuples incl. unit and 1-tuples, arrays with literal or named length, never, lifetime arguments) EXACTLY, in every legal context, never panics, and yields the tree the templates expect (parse_complete; option_is_recognised). The proof itself produced finding D10 (a reference to a reference is not one type). TESTED, not proved: that rustc accepts the expansion and that the result obeys C01 — generated declarations (struct/field visibility, generic type/lifetime/const parameters with inline bounds, where clauses, defaults, doc comments, foreign attributes, raw-identifier fields, every difference attribute in several spellings incl. trailing commas, expose, enums with unit/tuple/struct variants) are compiled against /repo and each runs a round-trip + frame + diff_ref + self-diff test. Tie of the parser model: /repo's own parser (included by path in a proc-macro) and the extracted model parse the same generated token trees. Known-bad constructs are compiled one by one: listed findings print KNOWN-FINDING, anything else is a violation.",
+   text="PARTIAL. Proved (Coq): the macro's field-type parser (derive/src/parse.rs::next_type transcribed branch by branch on proc-macro token trees) consumes every well-formed type of the grammar of supported field types (paths, nested generics, references with/without lifetimes, tuples incl. unit and 1-tuples, arrays with literal or named length, never, lifetime arguments) EXACTLY, in every legal context, never panics, and yields the tree the templates expect (parse_complete; option_is_recognised); and the macro's type printer (Type::full / Category::path, modelled on the tokens of the printed string) gives back exactly the tokens the user wrote for every such type (print_parse_roundtrip: 1-tuples keep their comma, nested generics, references, arrays). The proof itself produced finding D10 (a reference to a reference is not one type). TESTED, not proved: that rustc accepts the expansion and that the result obeys C01 — generated declarations (struct/field visibility, generic type/lifetime/const parameters with inline bounds, where clauses, defaults, doc comments, foreign attributes, raw-identifier fields, every difference attribute in several spellings incl. trailing commas, expose, enums with unit/tuple/struct variants) are compiled against /repo and each runs a round-trip + frame + diff_ref + self-diff test. Tie of the parser and printer models: /repo's own parser and printer (included by path in a proc-macro; the printed string is lexed again by rustc's lexer) and the extracted models run on the same generated token trees; independently, a supported type must print back as the tokens written. Known-bad constructs are compiled one by one: listed findings print KNOWN-FINDING, anything else is a violation.",
    note=TB + "Found and repaired D4 (commit b511edd: raw identifiers in composed names) and D7 (commit 23b505e: trailing comma in attribute lists). Known findings kept (not small/safe repairs): D5 (all fields skipped / empty struct), D6 (recurse on a generic-typed field), D8 (parameter used only behind a reference), D9 (bare reference field), D10 (reference to reference). The generics splitting, identifier formation and scoping of the expansion are not modelled in Coq; they are exercised by the compile test.",
-   technique="Coq proof of the type parser (nested induction over the grammar) + parser dump vs extracted model + compile-and-run of generated declarations (test) + known-findings list",
+   technique="Coq proof of the type parser and of the type printer (parse then print = the tokens written; nested induction over the grammar) + parser/printer dump vs extracted model + printer oracle + compile-and-run of generated declarations (test) + known-findings list",
    design="5/C17"),
  'C14': dict(
    text="Machine-checked proof (Coq): a byte-level model of BOTH wire formats — nanoserde binary (derive: u16 variant index, fields in order; the hand-written impls of the ordered / unordered-array / flat-map / recursive-map diffs with the u8 discriminants translated from /repo; lenient Option tag) and bincode 1.3 fixint of the serde derives (u32 variant index, strict Option tag) — for the diff entries of EVERY wire shape (every field strategy incl. recurse+Option with its two variants, nested to any depth) and for the values travelling inside entries; theorem wire_owned_roundtrip: decoding what the encoder wrote returns exactly the entry list and the untouched rest of the stream for every valid entry list (by mutual induction over the shape with prefix-law combinators; side conditions on the translated tables — consistent, pairwise distinct, fit in u8 — re-proved by computation), hence the decoded diff has the effect of the in-memory one on any base. Tie in both directions on every run: the Coq model DECODES /repo's bytes of diff and of diff_ref in both formats and must read exactly the in-memory diff; /repo decodes and applies the MODEL's bytes; oracle: the serialized DiffRef decoded as the owned type has the same effect on a and on an equivalent base as the in-memory diff.",
